@@ -92,7 +92,7 @@ struct C20 : vr::Driver {
       std::string kpath = "/dev/shm/c20-kmsg." + std::to_string(getpid());
       int kfd = ::open(kpath.c_str(), O_RDWR | O_CREAT | O_TRUNC, 0600);
       auto log = Oomd::Log::get_for_unittest(kfd, os, false);
-      size_t acceptedBytes = 0, producedLines = 0, acceptedLines = 0, refused = 0;
+      size_t producedLines = 0, acceptedLines = 0, refused = 0;
       size_t maxUnwritten = 0;
       std::string violation;
       auto parseWritten = [&]() {
@@ -109,17 +109,19 @@ struct C20 : vr::Driver {
         }
         return bytes;
       };
-      auto checkBacklog = [&]() {
-        size_t written = parseWritten();
-        size_t unwritten = acceptedBytes > written ? acceptedBytes - written : 0;
-        maxUnwritten = std::max(maxUnwritten, unwritten);
-        if (unwritten > MiB && violation.empty())
-          violation = "backlog-exceeds-1MiB\x01" + std::to_string(unwritten) + " bytes accepted but not yet written (cap is " + std::to_string(MiB) + ")";
+      // Event log of the execution: 'P' = a producer's log call has returned (the line is either queued or refused now),
+      // 'W' = the sink has received bytes.  Whether a line was ACCEPTED is decided after the run from public behaviour only (it
+      // reached the sink, the rest must be covered by the "N messages dropped" notices); the backlog bound is then evaluated at
+      // every event of this log.
+      struct Ev {
+        char kind;
+        int p, m;
+        size_t size, written;
       };
-      sink.onWrite = checkBacklog;
+      std::vector<Ev> events;
+      sink.onWrite = [&] { events.push_back({'W', -1, -1, 0, parseWritten()}); };
       std::vector<std::thread> producers;
       std::vector<std::vector<std::string>> sent(c.msgs.size());
-      std::vector<std::vector<bool>> accepted(c.msgs.size());
       for (size_t p = 0; p < c.msgs.size(); p++) {
         producers.emplace_back([&, p] {
           if (c.silence && p == 0) Oomd::LogStream(*log) << Oomd::LogStream::Control::DISABLE;
@@ -130,36 +132,12 @@ struct C20 : vr::Driver {
               // through the stream front end (adds the trailing newline itself)
               std::string body = line.substr(0, line.size() - 1);
               Oomd::LogStream(*log) << body;
-              bool shouldAppear = p != 0;
-              accepted[p].push_back(shouldAppear);
-              if (shouldAppear) {
-                acceptedBytes += line.size();
-                acceptedLines++;
-              }
-              producedLines++;
               if (p == 0 && m == 0) log->kmsgLog("kill-record-from-silenced-thread", "oomd kill");
-              continue;
-            }
-            size_t before = log->state_.numDiscarded, beforeQ = log->state_.queues[0].size() + log->state_.queues[1].size();
-            (void)beforeQ;
-            log->debugLog(std::string(line));
-            // debugLog runs atomically once it holds the lock (unlock / notify are not scheduling points), so this read is consistent
-            // only if nobody flushed in between; use the discard counter of the SAME critical section via the queue contents:
-            bool ok = false;
-            for (auto& q : log->state_.queues)
-              for (auto& s : q)
-                if (s.size() == line.size() && s.compare(0, 8, line, 0, 8) == 0) ok = true;
-            if (!ok && sink.all.find(line.substr(0, 8)) != std::string::npos) ok = true;
-            (void)before;
-            accepted[p].push_back(ok);
-            producedLines++;
-            if (ok) {
-              acceptedBytes += line.size();
-              acceptedLines++;
             } else {
-              refused++;
+              log->debugLog(std::string(line));
             }
-            checkBacklog();
+            producedLines++;
+            events.push_back({'P', (int)p, (int)m, line.size(), parseWritten()});
           }
           if (c.silence && p == 0) Oomd::LogStream(*log) << Oomd::LogStream::Control::ENABLE;
         });
@@ -176,7 +154,6 @@ struct C20 : vr::Driver {
       for (auto& t : producers) t.join();
       if (env.joinable()) env.join();
       sink.blocked = false;
-      size_t acceptedBeforeShutdown = acceptedLines;
       log.reset();  // ~Log: must flush everything accepted so far
       // ---- oracle -------------------------------------------------------------------------
       std::map<std::string, int> seen;
@@ -208,14 +185,30 @@ struct C20 : vr::Driver {
           (void)key;
         }
       }
-      for (size_t p = 0; p < c.msgs.size() && violation.empty(); p++)
-        for (size_t m = 0; m < accepted[p].size(); m++) {
+      // accepted = reached the sink; every other produced line (of a thread that is not silenced) must be covered by a drop notice
+      for (size_t p = 0; p < c.msgs.size(); p++)
+        for (size_t m = 0; m < c.msgs[p].size(); m++) {
+          bool silenced = c.silence && p == 0;
           std::string id = "P" + std::to_string(p) + "M" + std::to_string(m);
-          if (accepted[p][m] && !seen.count(id)) violation = "accepted-line-lost\x01line " + id + " was accepted before shutdown but is not in the sink after ~Log returned";
-          if (!accepted[p][m] && seen.count(id) && !(c.silence && p == 0)) violation = "refused-line-written\x01line " + id;
+          if (seen.count(id))
+            acceptedLines++;
+          else if (!silenced)
+            refused++;
         }
-      if (violation.empty() && !c.silence && reportedDropped != refused)
-        violation = "drop-report\x01" + std::to_string(refused) + " lines were refused but the output reports " + std::to_string(reportedDropped) + " dropped";
+      if (violation.empty() && reportedDropped != refused)
+        violation = "drop-report\x01" + std::to_string(producedLines) + " lines were produced, " + std::to_string(acceptedLines) + " reached the sink before ~Log returned, so " +
+                    std::to_string(refused) + " must have been refused - but the output reports " + std::to_string(reportedDropped) + " dropped (a line was lost, or dropped silently)";
+      // backlog bound at every event
+      {
+        size_t acc = 0;
+        for (auto& e : events) {
+          if (e.kind == 'P' && seen.count("P" + std::to_string(e.p) + "M" + std::to_string(e.m))) acc += e.size;
+          size_t unwritten = acc > e.written ? acc - e.written : 0;
+          maxUnwritten = std::max(maxUnwritten, unwritten);
+          if (unwritten > MiB && violation.empty())
+            violation = "backlog-exceeds-1MiB\x01" + std::to_string(unwritten) + " bytes accepted but not yet written (cap is " + std::to_string(MiB) + ")";
+        }
+      }
       if (violation.empty() && c.silence) {
         std::string k;
         char b[4096];
@@ -227,7 +220,6 @@ struct C20 : vr::Driver {
         if (k.find("kill-record-from-silenced-thread") == std::string::npos) violation = "kmsg-record-suppressed\x01the kill record logged by the silenced thread did not reach the kmsg sink";
       }
       ::unlink(kpath.c_str());
-      (void)acceptedBeforeShutdown;
       std::ostringstream ob;
       ob << "accepted=" << acceptedLines << " refused=" << refused << " reported=" << reportedDropped << " maxUnwritten=" << (maxUnwritten > MiB ? ">1MiB" : maxUnwritten > 512 * KiB ? ">512K" : "small") << " order=";
       {
